@@ -1,6 +1,6 @@
 """C18 — setup scripts run iff needed, serially, first; their variables reach matching tests only."""
 import vlib
-from props import common, mix, scr
+from props import common, mix, scr, disp
 
 THM = "NextestModel.Thm.C18"
 GEN = []
@@ -27,7 +27,46 @@ def run_p(seed, tier, replay=None):
             "violations": violations, "broken": r.broken, "impl_failures": r.impl_failures}
 
 
+def run_d(seed, tier):
+    """in-process, dispatcher side of "if any script fails no test is started": after a SetupScriptFinished whose result is not a
+    success (non-zero exit, death by signal, exec failure, time-out) the real DispatcherContext must refuse every later start
+    request (test, retry, setup script) and announce none; direct monitor on the implementation's own replies"""
+    r, items, model = disp.run_disp(seed, tier, 800, 20000)
+    violations = []
+    nt = 0
+    for (o, q, i), m in zip(items, model):
+        steps, _ = disp.split_steps(i)
+        evs = q.split(" ")[3].split(",")
+        failed_at = None
+        for k, st in enumerate(steps):
+            if st == ["panic"]: break
+            ev = evs[k]
+            if failed_at is not None:
+                ems = st[2].split(";;") if st[2] else []
+                bad = None
+                if ev.startswith(("S:", "R:", "sS:")) and st[1] == "ack": bad = f"the start request {ev} was acknowledged"
+                for e in ems:
+                    if e.startswith(("TestStarted(", "TestRetryStarted(", "SetupScriptStarted(")): bad = f"{e.split('(')[0]} was announced"
+                if bad:
+                    violations.append({"what": f"a setup script failed at step {failed_at} ({evs[failed_at]}) but afterwards {bad} (events {','.join(evs[:k + 1])})",
+                                       "payload": {"stream": o[:2], "line_index": o[2], "events": evs[:k + 1], "request": q, "impl": i}, "kind": "script-failure-start"})
+                    break
+            elif ev.startswith("sF:") and ev.split(":")[3] not in ("P", "L"):
+                failed_at = k; nt += 1
+                if st[3] == "None":
+                    violations.append({"what": f"setup script finished with result {ev.split(':')[3]} but the run is not being cancelled (events {','.join(evs[:k + 1])})",
+                                       "payload": {"stream": o[:2], "line_index": o[2], "events": evs[:k + 1], "request": q, "impl": i}, "kind": "script-failure-cancel"})
+                    break
+    return {"evaluations": len(items), "distinct_nontrivial": nt,
+            "rule": "p_disp (see C10): event sequences with 0-3 setup scripts finishing with every result kind; monitor: once a script has finished unsuccessfully the dispatcher's cancel state is set in that very step and no later start request is acknowledged or announced; non-trivial = sequences containing a failing script",
+            "samples": [], "traces": len(items), "dist": {"disp:" + k: v for k, v in r.dist.items()}, "violations": violations, "broken": r.broken, "impl_failures": r.impl_failures}
+
+
 def run(seed, tier, replay=None):
-    return mix.merge(run_p(seed, tier, replay), scr.check(seed, tier, 12, 120))
+    a, d = run_p(seed, tier, replay), run_d(seed, tier)
+    for k in ("evaluations", "distinct_nontrivial", "traces"): a[k] = a.get(k, 0) + d.get(k, 0)
+    a["rule"] += " || " + d["rule"]; a["dist"].update(d["dist"])
+    for k in ("violations", "broken", "impl_failures"): a[k] = a.get(k, []) + d.get(k, [])
+    return mix.merge(a, scr.check(seed, tier, 12, 120))
 
 KNOWN_MATCHERS = {}
